@@ -18,6 +18,10 @@ class HB(BaseException):
     pass
 
 
+class BlockError(Exception):
+    pass
+
+
 class Crash(Exception):
     pass
 
@@ -97,6 +101,8 @@ class C08(E1Check):
                         if a.split(":")[1] not in ("cancel", "sync") or b.split(":")[1] not in ("cancel", "async-raise"):
                             continue
                     progs.append({"owner": owner, "seq": list(seq)})
+                    if n <= 2 and ns >= 1 and "TS" not in seq and not any(x.split(":")[2].startswith("crash") for x in seq if x.startswith("S:")):
+                        progs.append({"owner": owner, "seq": list(seq), "block_raises": True})
                     if n <= 2 and ns == 1 and "SW" not in seq:
                         progs.append({"owner": owner, "seq": list(seq), "inner": True})
                         progs.append({"owner": owner, "seq": list(seq), "component": True})
@@ -243,6 +249,12 @@ class C08(E1Check):
             return service, ta
 
         async def owner_block() -> None:
+            try:
+                await owner_block0()
+            finally:
+                log("owner-left")
+
+        async def owner_block0() -> None:
             async with Context() as ctx:
                 st["owner_res"] = []
                 for i, item in enumerate(seq):
@@ -325,7 +337,9 @@ class C08(E1Check):
                             log("svc-factory-leaked", str(i2))
                 await env.gate("leave")
                 log("leaving")
-            log("owner-left")
+                if program.get("block_raises"):
+                    # the owner's block ends with an ordinary exception: every task is still stopped as its teardown_action dictates
+                    raise BlockError("the block itself fails")
 
         try:
             if program["owner"] == "root":
@@ -383,7 +397,13 @@ class C08(E1Check):
                 fail("swallowed", f"service tasks raised {st['crashes']!r}; {missing!r} vanished from what the root block raised: {out!r}")
         if crashed:
             return
-        if st.get("exc") is not None and not any("raise" in x or "base" in x or x.startswith("TX") for x in seq):
+        if program.get("block_raises"):
+            # (when a teardown callback or action raises too, the teardown's exception group replaces the block's exception by design -
+            # C01's subject; only the quiet programs are judged here)
+            quiet = not any("raise" in x or "base" in x or x.startswith("TX") for x in seq)
+            if quiet and (st.get("exc") is None or not all(isinstance(x, BlockError) for x in leaves(st["exc"]))):
+                fail("unexpected-error", f"the owner's block raised BlockError, no task crashed and no teardown action raised, but the root block ended with {st.get('exc')!r}")
+        elif st.get("exc") is not None and not any("raise" in x or "base" in x or x.startswith("TX") for x in seq):
             # (whether the exception of a raising teardown action is swallowed or re-raised is not stated; not judged)
             fail("unexpected-error", f"no task crashed, no teardown action raised, but the block raised {st['exc']!r}")
         if owner_left is not None:
